@@ -235,9 +235,13 @@ fn run_chain(flags: &[u8], script: &[(usize, u8)], cuts: &[usize], pending: &[us
     let mut wire = Vec::new();
     let mut expected = Vec::new();
     let mut si = 0;
+    let last_owing = flags.iter().rposition(|f| *f == 0 || *f == 2);
     for (i, f) in flags.iter().enumerate() {
         if *f == 1 || *f == 3 { continue; }
         let (k, fin) = script[si % script.len().max(1)];
+        // fin == 2: the final reply of the LAST reply-owing call is a well-framed but undecodable document: the stream
+        // yields the decode error and ends, having consumed exactly that frame (elsewhere 2 means 0)
+        let fin = if fin == 2 && Some(i) != last_owing { 0 } else { fin };
         si += 1;
         let k = if *f == 2 { k } else { 0 };
         for j in 0..k {
@@ -248,6 +252,9 @@ fn run_chain(flags: &[u8], script: &[(usize, u8)], cuts: &[usize], pending: &[us
         if fin == 0 {
             wire.extend_from_slice(format!(r#"{{"parameters":{{"a":{}}}}}"#, 100 * i + 99).as_bytes());
             expected.push(format!("ok:{}:None", 100 * i + 99));
+        } else if fin == 2 {
+            wire.extend_from_slice(br#"{"parameters":{"a":"not a number"}}"#);
+            expected.push("decode-error".into());
         } else {
             wire.extend_from_slice(format!(r#"{{"error":"a.Bad","parameters":{{"code":{}}}}}"#, i).as_bytes());
             expected.push(format!("err:{i}"));
@@ -286,6 +293,7 @@ fn run_chain(flags: &[u8], script: &[(usize, u8)], cuts: &[usize], pending: &[us
                 None => { got.push("end".into()); break; }
                 Some(Ok(Ok(r))) => got.push(format!("ok:{}:{:?}", r.parameters().map(|p| p.a).unwrap_or(0), r.continues())),
                 Some(Ok(Err(E::Bad { code }))) => got.push(format!("err:{code}")),
+                Some(Err(zlink_core::Error::Json(_))) => got.push("decode-error".into()),
                 Some(Err(e)) => got.push(format!("transport:{e:?}")),
             }
         }
@@ -306,7 +314,7 @@ fn search_chain(seed: u64, budget: usize) -> Option<Value> {
     for _ in 0..budget {
         let n = 1 + rng.below(5);
         let flags: Vec<u8> = (0..n).map(|_| rng.below(4) as u8).collect();
-        let script: Vec<(usize, u8)> = (0..n).map(|_| (rng.below(3), rng.below(2) as u8)).collect();
+        let script: Vec<(usize, u8)> = (0..n).map(|_| (rng.below(3), if rng.below(6) == 0 { 2 } else { rng.below(2) as u8 })).collect();
         let cuts: Vec<usize> = match rng.below(3) { 0 => vec![], 1 => vec![1 + rng.below(9)], _ => (0..3).map(|_| 1 + rng.below(50)).collect() };
         let pending: Vec<usize> = if rng.below(2) == 0 { vec![] } else { (0..1 + rng.below(4)).map(|_| rng.below(12)).collect() };
         let (exp, got) = run_chain(&flags, &script, &cuts, &pending);
@@ -643,7 +651,9 @@ fn search_send(seed: u64, budget: usize) -> Option<Value> {
         let ops: Vec<(u8, usize)> = (0..n).map(|_| {
             let k = [0u8, 0, 1, 2, 3, 4, 5][rng.below(7)];
             let target = 256 * (1 + rng.below(4)) + [0usize, 1, 2, 255, 254, 128][rng.below(6)];
-            let size = match rng.below(4) { 0 => rng.below(40), 1 => target.saturating_sub(overhead), _ => target.saturating_sub(overhead + rng.below(3)) };
+            // now and then a document of several KiB (or tens of KiB): whatever the buffer does once it has grown (shrinking,
+            // reallocating) must not lose what is still pending
+            let size = match rng.below(9) { 0 | 1 => rng.below(40), 2 | 3 => target.saturating_sub(overhead), 4 => 3000 + rng.below(7000), 5 if rng.below(4) == 0 => 20000 + rng.below(60000), _ => target.saturating_sub(overhead + rng.below(3)) };
             (k, size)
         }).collect();
         let ops2 = ops.clone();
@@ -841,10 +851,12 @@ fn search_fair(seed: u64, budget: usize) -> Option<Value> {
 // C08 / C09 / C10: a real Server with faulty and streaming clients.  Per connection the expectation is
 // independent of every other connection (non-interference): replies for its calls in order until its first
 // undecodable frame or its first failing write; a streaming call yields its items, then the connection resumes.
-fn run_faults(wires: &[Vec<u8>], fail_write_at: &[Option<usize>], cuts: &[usize]) -> (Vec<Vec<String>>, Vec<Vec<String>>) {
-    let socks: Vec<ScriptedSocket> = wires.iter().zip(fail_write_at).map(|(w, f)| {
+fn run_faults(wires: &[Vec<u8>], fail_write_at: &[Option<usize>], cuts: &[usize], slow: &[usize]) -> (Vec<Vec<String>>, Vec<Vec<String>>) {
+    let socks: Vec<ScriptedSocket> = wires.iter().zip(fail_write_at).enumerate().map(|(i, (w, f))| {
         let s = ScriptedSocket::new(w, cuts);
         if let Some(k) = f { s.0.borrow_mut().fail_writes = vec![*k]; }
+        // a momentarily full transport: every k-th write pends once, then completes (it keeps accepting writes)
+        s.0.borrow_mut().slow_write_every = slow.get(i).copied().unwrap_or(0);
         s
     }).collect();
     let scripts: Vec<_> = socks.iter().map(|s| s.0.clone()).collect();
@@ -917,9 +929,10 @@ fn search_faults(seed: u64, budget: usize) -> Option<Value> {
             fails.push(if rng.below(4) == 0 { Some(rng.below(4)) } else { None });
         }
         let cuts: Vec<usize> = match rng.below(3) { 0 => vec![], 1 => vec![1 + rng.below(7)], _ => (0..3).map(|_| 1 + rng.below(60)).collect() };
-        let (exp, got) = run_faults(&wires, &fails, &cuts);
+        let slow: Vec<usize> = (0..nconn).map(|_| if rng.below(3) == 0 { 1 + rng.below(3) } else { 0 }).collect();
+        let (exp, got) = run_faults(&wires, &fails, &cuts, &slow);
         if !faults_ok(&wires, &fails, &exp, &got) {
-            return Some(json!({"kind":"faults","wires_hex":wires.iter().map(|w| hex(w)).collect::<Vec<_>>(),
+            return Some(json!({"kind":"faults","slow_write_every":slow,"wires_hex":wires.iter().map(|w| hex(w)).collect::<Vec<_>>(),
                 "wires_shown":wires.iter().map(|w| show(w)).collect::<Vec<_>>(),"fail_write_at":fails,"cuts":cuts,"expected":exp,"got":got}));
         }
     }
@@ -1069,7 +1082,8 @@ fn main() {
             let wires: Vec<Vec<u8>> = w["wires_hex"].as_array().unwrap().iter().map(|x| unhex(x.as_str().unwrap())).collect();
             let cuts: Vec<usize> = w["cuts"].as_array().unwrap().iter().map(|x| x.as_u64().unwrap() as usize).collect();
             let fails: Vec<Option<usize>> = w["fail_write_at"].as_array().unwrap().iter().map(|x| x.as_u64().map(|v| v as usize)).collect();
-            let (exp, got) = run_faults(&wires, &fails, &cuts);
+            let slow: Vec<usize> = w.get("slow_write_every").and_then(|x| x.as_array()).map(|a| a.iter().map(|x| x.as_u64().unwrap_or(0) as usize).collect()).unwrap_or_default();
+            let (exp, got) = run_faults(&wires, &fails, &cuts, &slow);
             for (w, f) in wires.iter().zip(&fails) { println!("wire = {}   failing write = {f:?}", show(w)); }
             println!("expected = {exp:?}");
             println!("got      = {got:?}");
